@@ -160,6 +160,8 @@ CLOSED_FORMS = {"projective": cf_projective, "hyperboloid": cf_hyperboloid,
 # classes of projective representatives.  C13's tangent-direction tolerances are
 # calibrated for representatives of comparable scale (C12 bounds the disparity).
 WILD_SCALES = False
+# set by C13: random signs only (negative time coordinate), comparable scales
+SIGN_FLIPS = False
 
 
 def klein_to_model(k, model, rng=None):
@@ -181,10 +183,10 @@ def klein_to_model(k, model, rng=None):
             # of unit scale in the upper nappe)
             lead = k.shape[:-1] + (1,)
             scale = np.exp(rng.uniform(np.log(0.1), np.log(10.0), size=lead))
-            u = rng.random() if WILD_SCALES else 1.0
+            u = rng.random() if (WILD_SCALES or SIGN_FLIPS) else 1.0
             if u < 0.3:
                 scale = scale * rng.choice([-1.0, 1.0], size=lead)
-            elif u < 0.5:
+            elif u < 0.5 and WILD_SCALES:
                 scale = scale * 10.0 ** rng.uniform(-9, 9, size=lead)
             P = P * scale
         return P
